@@ -423,6 +423,7 @@ class C15(core.Check):
         n_inc = sum(1 for t in case["files"].values() for l in t.split("\n") if INC_RE.match(l))
         maxdepth_seen = 0
         steps = 0
+        trace = []  # what actually happened, for the run digest
         for si, step in enumerate(case["steps"]):
             steps += 1
             fired_before = len(fs.fired_faults)
@@ -444,6 +445,7 @@ class C15(core.Check):
             writes = [e for e in hist if e[1] == "open" and any(c in e[3] for c in "wax+")]
             bump("mode." + step["mode"])
             bump("model." + kind)
+            trace.append([step["mode"], kind, got[0], got[1][1] if got[0] == "exc" else core.digest(got[1]), [e[1:4] for e in hist]])
             for f in fs.fired_faults[fired_before:]:
                 bump(f"fault.{f['op']}_{f['err']}")
             if case.get("special") in ("missing", "isdir", "cycle", "selfcycle") and si == 0:
@@ -525,7 +527,7 @@ class C15(core.Check):
                     break
                 bump("checked.io_error_fail_stop")
             maxdepth_seen = max(maxdepth_seen, len(opens))
-        return {"violation": violation, "digest": core.digest([case["files"], case["steps"], case["faults"], case["dirs"]]),
+        return {"violation": violation, "digest": core.digest([case["files"], case["steps"], case["faults"], case["dirs"], trace]),
                 "nontrivial": n_inc >= 2 or bool(case.get("special")), "stats": stats, "steps": steps}
 
     def real_replay(self, case):
